@@ -434,3 +434,37 @@ def decoder_for(ty, base, count):
     if kind in ("wchar",) or (kind == "int" and base not in PACK):
         return "parse"
     return "init"
+
+
+def plan_sexp(plan):
+    """the plan as the model driver's S-expression (harness.common.sx input)"""
+    from .common import A
+
+    def src(x):
+        if x[0] == "buf":
+            return [A("buf"), x[1], x[2]]
+        return [A("data"), x[1]] if x[2] is None else [A("data"), x[1], x[2]]
+
+    def dec(d):
+        if isinstance(d, tuple):
+            return [A("intarray"), d[1]]
+        return A(d)
+
+    out = []
+    for ins in plan:
+        k = ins[0]
+        if k == "seek":
+            out.append([A("seek"), ins[1]])
+        elif k == "align":
+            out.append([A("aligncls")] if ins[1] == "cls" else [A("align"), ins[1]])
+        elif k == "bitsreset":
+            out.append([A("bitsreset")])
+        elif k == "sub":
+            out.append([A("sub"), ins[1]])
+        elif k == "bits":
+            out.append([A("bits"), ins[1], ins[2], A(ins[3])])
+        elif k == "block":
+            out.append([A("block"), ins[1], A("none") if ins[2] is None else ins[2], [[sl["name"], src(sl["src"]), dec(sl["decode"]), sl["size"]] for sl in ins[3]]])
+        else:
+            raise Unknown(f"instruction {ins!r}")
+    return out
